@@ -78,8 +78,8 @@ def main():
                 sh("git", "-C", REPO, "checkout", "--", ".")
             results[name] = fired
             if meta.get("benign"):
-                status = "silent" if not fired else "FALSE ALARM"
-                bad += 1 if fired else 0
+                status = "silent" if not fired else ("ALARM (accepted: %s)" % meta["accepted_alarm"][:60] if meta.get("accepted_alarm") else "FALSE ALARM")
+                bad += 1 if fired and not meta.get("accepted_alarm") else 0
             else:
                 exp = meta.get("expect") or [meta["property"]]
                 missing = [p for p in exp if p not in fired]
